@@ -739,3 +739,27 @@ Proof.
   intros Hc fn body t x ds' Hth Hrun Hx i fn' k l Hn Hl.
   eapply callback_never_under; eauto. eapply program_safe; eauto.
 Qed.
+
+(* whole-program forms of the other two protocol facts *)
+Theorem program_no_self_deadlock C pr entries lits unsup :
+  check_program C pr entries lits unsup = [] ->
+  forall fn body t x ds', thread C (fenv_of (reachable pr entries)) fn body ->
+    run (fenv_of (reachable pr entries)) fn body [] t x ds' -> is_brk x = false ->
+  forall i fn' l m, nth_error (t ++ tag fn ds') i = Some (fn', EA (Acq l m)) ->
+    lookup l (held_at [] (t ++ tag fn ds') i) = None.
+Proof.
+  intros Hc fn body t x ds' Hth Hrun Hx i fn' l m Hn.
+  eapply no_self_deadlock; eauto. eapply program_safe; eauto.
+Qed.
+
+(* when an API call (a function without requirements) returns, the calling thread holds no lock it did not hold before *)
+Theorem program_call_releases_all C pr entries lits unsup :
+  check_program C pr entries lits unsup = [] ->
+  forall f body t x dsf, fenv_of (reachable pr entries) f = Some body -> requires C f = [] ->
+    run (fenv_of (reachable pr entries)) f body [] t x dsf -> is_brk x = false ->
+  forall l, lookup l (upds [] (t ++ tag f dsf)) = None.
+Proof.
+  unfold check_program. intros Hc. apply app_eq_nil in Hc as [_ Hall].
+  intros f body t x dsf Hf Hr Hrun Hx l. eapply entry_final_empty; eauto.
+  intros f0 b0 Hf0. eapply check_all_nil; [exact Hall|]. apply assoc_In. exact Hf0.
+Qed.
